@@ -319,6 +319,17 @@ func TestPropAggCache(t *testing.T) {
 			t.Fatalf("HARNESS-ERROR: %v", err)
 		}
 		defer agg.Shutdown()
+		// a sibling aggregation alive at the same time: same regex and output format, its own other options (every
+		// aggregation answers for its own complete filter, whatever is shared or cached between them)
+		sf := gen.GenFilter(t, "sibling", 40)
+		sf.Regex = f.Regex
+		sref := sf.Ref()
+		sibling, err := aggregator.NewMocked("count", sf.MustMatcher(), "aggout", true, 1, wait, true, make(chan []byte, 10000), 0, now, make(chan time.Time))
+		if err != nil {
+			t.Fatalf("HARNESS-ERROR: %v", err)
+		}
+		defer sibling.Shutdown()
+		siblingDiffers := false
 		wantCount := map[int64]int{}
 		gotCount := map[int64]int{}
 		drain := func() {
@@ -349,6 +360,18 @@ func TestPropAggCache(t *testing.T) {
 				h.AggBarrier(agg)
 				if got != want {
 					t.Fatalf("drop-raw aggregation %s consumed=%v for %q, reference filter says %v (history %v)", f, got, name, want, hist)
+				}
+				if rapid.Bool().Draw(t, "alsoSibling") {
+					sw := sref.Match(name)
+					sg := sibling.AddMaybe([][]byte{[]byte(name), []byte("1"), []byte(fmt.Sprint(clock))}, 1, uint32(clock))
+					h.AggBarrier(sibling)
+					if sg != sw {
+						t.Fatalf("sibling drop-raw aggregation %s consumed=%v for %q, reference filter says %v (the other aggregation is %s; history %v)", sf, sg, name, sw, f, hist)
+					}
+					if sw != want {
+						siblingDiffers = true
+					}
+					hist = append(hist, "sibling-lookup:"+name)
 				}
 				if want {
 					wantCount[bucket]++
@@ -383,7 +406,7 @@ func TestPropAggCache(t *testing.T) {
 		if fmt.Sprint(wantCount) != fmt.Sprint(gotCount) {
 			t.Fatalf("aggregation %s with cache: counts per bucket %v, reference %v (history %v)", f, gotCount, wantCount, hist)
 		}
-		rec.Case(f.String()+" "+strings.Join(hist, ","), evictions > 0 && hits > 0 && len(wantCount) > 0, fmt.Sprintf("evictions>0=%v", evictions > 0), fmt.Sprintf("hits>0=%v", hits > 0))
+		rec.Case(f.String()+" "+strings.Join(hist, ","), evictions > 0 && hits > 0 && len(wantCount) > 0, fmt.Sprintf("evictions>0=%v", evictions > 0), fmt.Sprintf("hits>0=%v", hits > 0), fmt.Sprintf("sibling-verdict-differs=%v", siblingDiffers))
 	})
 }
 
